@@ -952,8 +952,60 @@ Proof.
     + exists d'. rewrite K3 in G7. repeat split; congruence.
 Qed.
 
+
+(* ---- drain: a surviving message is handed out by a pull past its backoff ---- *)
+(* The drain phase of the property: after any legal history in which no rightful cause
+   applied to the delivery (so it survived, [C01_never_lost]), a pull on its subscription
+   - at a time not before the delivery's current attempt deadline and before its retention
+     deadline ("past every backoff"),
+   - while ordering does not hold it back (unordered subscription, or no active predecessor),
+   - whose LIMIT does not cut the eligible set and whose byte budget is not the limit,
+   hands the message out, with the payload and attributes it was published with -- or
+   dead-letters it when its attempts are used up under a complete dead-letter policy. *)
+Theorem C01_drain h st t0 d now name max returned others w fz fr s m :
+  ids_unique st -> all_legal st h -> times_nondecreasing t0 h ->
+  In d (dels st) -> d_completed d = None ->
+  (match get_sub st (d_sub d) with Some s => sub_live s = true | None => False end) ->
+  (forall s now o d0, In (s, now, o) (trace st h) -> In d0 (dels s) -> d_id d0 = d_id d -> now < d_expires d ->
+                      cause s o d0 = false) ->
+  (forall s now o, In (s, now, o) (trace st h) -> now < d_expires d) ->
+  let st' := run st h in
+  let pull := Pull name max returned others w fz fr in
+  legal st' now pull -> valid_sub_name name = true -> 1 <= max ->
+  find_live_sub st' name = Some s -> s_id s = d_sub d ->
+  now < d_expires d ->
+  (forall d', In d' (dels st') -> d_id d' = d_id d ->
+              d_attempt_at d' <= now /\ (s_ordered s && pred_blocks st' now d') = false) ->
+  Z.of_nat (length (filter (eligible st' s now) (dels st'))) <= max ->
+  get_msg st' (d_msg d) = Some m ->
+  (forall m', In m' (msgs st') ->
+              0 <= m_size m' /\ m_size m' * Z.of_nat (length (returned ++ others)) <= pull_max_bytes) ->
+  (exists d', In d' (dels st') /\ d_id d' = d_id d /\ dl_due st' d' = true /\
+     exists d'', In d'' (dels (post st' now pull)) /\ d_id d'' = d_id d /\ d_completed d'' = Some w) \/
+  (exists p, In p (pulled_of (answer st' now pull)) /\ p_ack p = d_id d /\ p_msg p = d_msg d /\
+             p_payload p = m_payload m /\ p_attrs p = m_attrs m).
+Proof.
+  intros U AL TN Hd Hc Hl Hcause Htime st' pull HL Hv Hmax Hf Hsid Hnow Hready Hlim Hgm Hbud.
+  destruct (C01_never_lost h st t0 d U AL TN Hd Hc Hl Hcause Htime)
+    as [d' [G1 [G2 [G3 [G4 [G5 [G6 _]]]]]]].
+  fold st' in G1.
+  assert (U' : ids_unique st') by (apply run_ids_unique; assumption).
+  destruct (Hready d' G1 G2) as [Hat Hblk].
+  assert (He : eligible st' s now d' = true).
+  { unfold eligible. rewrite G4, <- Hsid, N.eqb_refl, G5, G6, Hblk. cbn [is_none andb negb].
+    apply Z.ltb_lt in Hnow. apply Z.leb_le in Hat. rewrite Hnow, Hat. reflexivity. }
+  pose proof (offered st' now name max returned others w fz fr s d' U' HL Hv Hmax Hf G1 He Hlim) as Hmem.
+  assert (Hgm' : get_msg st' (d_msg d') = Some m) by (rewrite G3; exact Hgm).
+  destruct (selected_is_served st' now name max returned others w fz fr s d' m U' HL Hv Hmax Hf G1 Hmem Hgm' Hbud)
+    as [[Hdue [d'' [K1 [K2 K3]]]]|[_ [p [K1 [K2 [K3 [_ [K5 K6]]]]]]]].
+  - left. exists d'. repeat split; try assumption.
+    exists d''. repeat split; try assumption. congruence.
+  - right. exists p. repeat split; try assumption; congruence.
+Qed.
+
 Print Assumptions publish_only_rightful.
 Print Assumptions only_rightful_settlement.
 Print Assumptions offered.
 Print Assumptions selected_is_served.
 Print Assumptions C01_never_lost.
+Print Assumptions C01_drain.
